@@ -416,11 +416,12 @@ func init() {
 				Expand:   func(x *engine.Exec) bool { return !x.Res.Rejected && x.Res.Err == nil },
 				Required: []string{"transition.repeated"},
 			}
-			for _, sc := range []*engine.Scenario{s1, s2, s3, s4, s5} {
+			s6 := unionFullScenario("C19", "c19-union-full-pipeline", tier, c19Step, nil, tierPick(tier, 3, 5))
+			for _, sc := range []*engine.Scenario{s1, s2, s3, s4, s5, s6} {
 				sc.Late = c19Late
 				sc.Required = append(sc.Required, "transition.repeated_after_subtree")
 			}
-			return []*engine.Scenario{s1, s2, s3, s4, s5}
+			return []*engine.Scenario{s1, s2, s3, s4, s5, s6}
 		},
 		Extra:       func(tier string) ([]engine.Failure, map[string]any) { return staticRule() },
 		NoReproduce: true,
